@@ -56,6 +56,7 @@ class Ref:
         self.max_steps = max_steps
         self.features = set()
         self._wakes = 0
+        self.stash = {}          # entity -> delivered event objects it keeps (re-emitted, re-stamped, by a later "flush")
 
     # -------------------------------------------------------------- creation
     def nxt(self):
@@ -317,6 +318,18 @@ class Ref:
             evs = [x for em, x in created if not em.get("via")]    # returned: subject to the return shape
             for h in beh.get("cancel", []):
                 self.cancel(h)
+            if beh.get("flush"):
+                # the held Event objects are returned again: same object (same creation index), new timestamp = now
+                for held in self.stash.pop(ev["tgt"], []):
+                    f = held["fuel"] - 1
+                    if f < 0:
+                        continue
+                    self.uid += 1
+                    held.update(uid=self.uid, fuel=f, t=self.now, done=False, queued=False)
+                    evs.append(held)
+                    self.features.add("restamped-event")
+            if beh.get("stash"):
+                self.stash.setdefault(ev["tgt"], []).append(ev)
             shape = beh.get("shape", "list")
             if shape == "none":
                 evs = []
